@@ -89,13 +89,29 @@ func Run(run *evid.Run, args ...string) bool {
 	}
 	once := func() []Line {
 		cmd := exec.Command(bin, append([]string{"-tier", run.Tier}, args...)...)
-		cmd.Stderr = os.Stderr
+		var stderr strings.Builder
+		cmd.Stderr = &stderr
 		out, err := cmd.Output()
-		if err != nil {
-			fmt.Fprintf(os.Stderr, "INTERNAL: network-row helper failed: %v\n", err)
-			os.Exit(2)
-		}
 		var lines []Line
+		if err != nil {
+			// the helper died (runtime fatal error such as "concurrent map writes", a panic in a
+			// library goroutine): that is the library terminating the process, a finding of
+			// these rows, not an internal error of the check
+			tail := strings.Split(strings.TrimSpace(stderr.String()), "\n")
+			first := ""
+			for _, ln := range tail {
+				if strings.HasPrefix(ln, "fatal error:") || strings.HasPrefix(ln, "panic:") {
+					first = ln
+					break
+				}
+			}
+			if first == "" && len(tail) > 0 {
+				first = tail[0]
+			}
+			lines = append(lines, Line{Kind: "process-terminated", Site: "free-running rows", Detail: fmt.Sprintf("the helper running the free-running rows died (%v): %s", err, first), Witness: map[string]any{"rows": "helper process"}})
+		} else {
+			os.Stderr.WriteString(stderr.String())
+		}
 		for _, ln := range strings.Split(string(out), "\n") {
 			if strings.TrimSpace(ln) == "" || !strings.HasPrefix(ln, "{") {
 				continue
